@@ -53,6 +53,7 @@ let parse_cmd (s : string) : cmd =
   | ["xsr"; src; dst; f] -> ARestore (abspath src, relpath dst, b01 f)
   | ["xra"; p; i] -> ARemoveEntryAt (relpath p, nat_of_int (int_of_string i))
   | ["dt"] -> CDetach
+  | ["at"] -> CAttach
   | _ -> failwith ("bad cmd " ^ s)
 
 let opc n = String.make 1 (Char.chr (int_of_n n))
